@@ -159,7 +159,9 @@ def semdump(m):
 
 
 def comments_of(store):
-    return [t.raw_text for t in store if isinstance(t, models.BlockComment)]
+    """Comment LINES in document order: two adjacent comment tokens re-lex as one multi-line comment, which is
+    attribution, not content."""
+    return [line for t in store if isinstance(t, models.BlockComment) for line in t.raw_text.split('\n')]
 
 
 def reparse_equivalent(root, cls=models.File, what='reparse'):
@@ -224,10 +226,22 @@ def check_window(before, after, parent_first, parent_last, old_tokens, new_token
             check(after.texts[len(after.texts) - 1 - i] == before.texts[nb - 1 - i], what, 'text of an untouched token changed (suffix)', i)
         old_ids = {id(t) for t in old_tokens}
         new_ids = {id(t) for t in new_tokens}
+        # tokens inside the window that are present on both sides (several ranges edited at once) must keep their order
+        after_pos = {id(t): i for i, t in enumerate(after.tokens)}
+        last = -1
+        survivors = set()
         for t in before.tokens[p:p + x]:
-            check(id(t) in old_ids or is_separator(t), what, 'a token that is neither the old child nor a separator disappeared', R_(t))
+            if id(t) in after_pos:
+                check(after_pos[id(t)] > last, what, 'surviving tokens were re-ordered', R_(t))
+                last = after_pos[id(t)]
+                survivors.add(id(t))
+                check(after.texts[after_pos[id(t)]] == before.texts[before.index[id(t)]], what, 'text of a surviving token changed', R_(t))
+        for t in before.tokens[p:p + x]:
+            if id(t) not in survivors:
+                check(id(t) in old_ids or is_separator(t), what, 'a token that is neither the old child nor a separator disappeared', R_(t))
         for t in after.tokens[p:p + y]:
-            check(id(t) in new_ids or is_separator(t), what, 'a token that is neither the new child nor a separator appeared', R_(t))
+            if id(t) not in survivors:
+                check(id(t) in new_ids or is_separator(t), what, 'a token that is neither the new child nor a separator appeared', R_(t))
 
 
 TEMPLATES = {
